@@ -375,6 +375,20 @@ func TestC02(t *testing.T) {
 	// exhaustive sweep: L<=maxL, every single-leaf location and every join/order/complement of two leaves,
 	// every index, n in {0,1,2,3}, Insert and Embed.
 	maxL := pick(4, 6)
+	// magnitudes: hosts and guests whose sizes sit on powers of two and multiples of 65536, one spanning feature
+	eg := enumPart(t, c02Prop, st, "large-residues")
+	for _, n := range magnitudeLensShort(thorough()) {
+		span := []Feat{{Key: "gene", Loc: lrg(1, n-1), Quals: [][]string{{"label", "h0"}}}}
+		for _, c := range []c02Case{
+			{HostLen: n, GuestLen: 3, Index: n / 2, Host: span}, {HostLen: n, GuestLen: 70001, Index: n, Embed: true}, {HostLen: 70001, GuestLen: n, Index: 1},
+			{HostLen: n, GuestLen: n, Index: 0, Host: span}, {HostLen: n, GuestLen: 65536, Index: n - 1, Embed: true, Host: span},
+		} {
+			if !eg.try(c) {
+				return
+			}
+		}
+	}
+	eg.done(true)
 	e := enumPart(t, c02Prop, st, "exhaustive-small")
 	for L := 0; L <= maxL; L++ {
 		leaves := smallLocs(L, true, true)
